@@ -222,25 +222,25 @@ T = {
 # what the seeding rounds added to each check (appended to the level text)
 EXTRA = {
     "C01": "Also: index-array / mask selection on typed batches, in-place origin changes between conversions, fractional positions as list / tuple / nested list, points 2^-20 of a voxel inside each face. Rounds 5-7: kept coordinate system with distractor systems, integer index and coordinate dtypes, user origin off the voxel lattice, bounding box and all-voxel batches, long axes (every voxel count 13..200).",
-    "C02": "Also: origins spelled with Python ints, dated series spanning more than a day with an explicit reference date, an independent time reference for assembly, a cap on the reachable state count (excess = violation). Rounds 5-7: negative-bound spellings, one-component vectors, all-corner ROIs, dated assembly with an explicit shared reference date, appended series chunks, the assembled series as operand of a further stack, mixed storage types.",
+    "C02": "Also: origins spelled with Python ints, dated series spanning more than a day with an explicit reference date, an independent time reference for assembly, a cap on the reachable state count (excess = violation). Rounds 5-7: negative-bound spellings, one-component vectors, all-corner ROIs, dated assembly with an explicit shared reference date, appended series chunks, the assembled series as operand of a further stack, mixed storage types. Round 9: strided time intervals of assembled series.",
     "C03": "Also: mixed resolutions (each axis refined, coarsened or kept), weight containers shared between geometries, long num_voxels, normalise at three physical scales and on integer-typed / float32 images. Rounds 5-7: Images with default dimensions, Fortran-ordered arrays, integer and boolean data, normalise histories with a reference updated in place.",
     "C04": "Also: a second computation on the same solver object compared with a fresh object; a fault in the k-th solve of that second computation; a status ladder (each stopping criterion alone, tolerance 2^0..2^-30, masses x16 and x1/16); masses of magnitude 2^-30 with the library's default solver tolerances. Rounds 5-7: image storage types, verbose-is-passive, kinds of failure (RuntimeError / MemoryError / other) in the fault tree, residual history across formulations, second pair at twice the mass.",
     "C05": "Also: constant-weight scaling with all other options unchanged in every L1 x mobility mode (Newton and Bregman); scalar voxel size on thin multi-axis grids; 1xnx1 / 1x1xn grids; EMD object reuse and process history. Rounds 5-7: own Gauss-Legendre reference for the RT rule, tiny-mass homogeneity in every mode, homogeneity with finite relative tolerances, visible regularization option.",
     "C06": "Also: three voxel-size forms; every case starts from a process state in which operators of the same shape with other voxel sizes were built; negative fields; integer and float32 cell quantities; caller arrays updated in place between calls; results of earlier calls stay unchanged. Rounds 5-7: repeated assembly on one grid, grid unchanged by operators, harmonic means of zero / 2^-600 / 2^600, voxel sizes as caller-owned array / tuple / tiny / nearly cubic.",
     "C08": "Also: right-hand sides of magnitude 2^-40; the system handed in stays unchanged; solutions returned by earlier solves stay unchanged; one options dict shared between back-ends; process history. Rounds 5-7: large systems with zero-spelled tolerances (usable / accuracy), Bregman with L != L_init end-to-end, tiny voxels, reuse_solver=True as first call.",
-    "C10": "Also: a used correction re-configured through its own save()/load() (or re-assignment of its public scaling) must behave like a fresh object so configured. Rounds 5-7: single-step series, appended series, drift re-configuration, float64 payloads beyond single precision.",
+    "C10": "Also: a used correction re-configured through its own save()/load() (or re-assignment of its public scaling) must behave like a fresh object so configured. Rounds 5-7: single-step series, appended series, drift re-configuration, float64 payloads beyond single precision. Round 9: dated images whose relative times were set independently of their dates.",
     "C11": "Also: images whose float data arrived after construction around integer data; resize histories on one object; position (origin) of reduced images; non-square voxels with offsets in superposition. Rounds 5-7: inputs digest-identical after every operation, huge finite values, zero-sum data, integer-typed origin of the first superposed image.",
-    "C14": "Also: label-wise linear model on signals at other resolutions than the label map, all call sequences of length <= 3 over 4 resolutions against a fresh model. Rounds 5-7: reversed dof lists, integer signals for label-wise models, combined model with a mask-taking part.",
+    "C14": "Also: label-wise linear model on signals at other resolutions than the label map, all call sequences of length <= 3 over 4 resolutions against a fresh model. Rounds 5-7: reversed dof lists, integer signals for label-wise models, combined model with a mask-taking part. Round 9: label-wise thresholds with one bound pair in every scalar / list spelling.",
     "C15": "Also: the rule actually applied inside transport_density per L1 mode on generic grids and grids with single-cell axes; every (modify a returned rule in place, request any rule again) pair.",
     "C16": "Also: float32 inputs, a caller-owned options dict shared by distance objects, scalar parameter updates of MG, Jacobi without h, front-end distances on a stretched domain of equal voxel count and volume. Rounds 5-7: heterogeneous Jacobi, NumPy-scalar parameters, Bregman objects with L != L_init, AMG objects with own options on a 156-cell grid, deeper MG on too-small arrays.",
     "C17": "Also: odd extents and wide-range operands, coarsening on odd extents, ROIs outside the image, big-int / negative-int scalars. Rounds 5-7: dynamic threshold model with caller-owned bounds, NaN / inf data, distance_matrix with preprocess, scalars 0 and 1.",
-    "C18": "Also: file names re-used between save generations. Rounds 5-7: curvature crop marked with typed voxels.",
+    "C18": "Also: file names re-used between save generations. Rounds 5-7: curvature crop marked with typed voxels. Round 9: extents not recovered from voxel size x count; one-slice series in the quick tier.",
     "C19": "Also: set_image on a patch followed by assemble. Rounds 5-7: converted / moved / non-finite / zero-band base images, assemble twice.",
     "C20": "Also: origin changes between calls, coordinate_vector on sub-voxel vectors, to_vtk layout through a recording pyevtk stand-in, coordinate systems of 1-D/2-D/3-D images created in every order and kept. Rounds 5-7: integer-typed origins, integer cut coordinates, off-lattice user origin, index dtypes, all-voxel batch.",
-    "C07": "Also (rounds 5-7): grids from vector / series images; every grid re-inspected after FV operators and a distance solver were built on it.",
+    "C07": "Also (rounds 5-7): grids from vector / series images; every grid re-inspected after FV operators and a distance solver were built on it. Round 9: face_to_cell evaluated at the grid's own corner rows (views).",
     "C09": "Also (rounds 5-7): parameter spellings, Fortran-ordered arrays, partial updates after use, infinite border values, destination windows beyond index 255 / 65535.",
     "C12": "Also (rounds 5-7): column-major swatch grids, three- and four-swatch lists, faint maps.",
-    "C13": "Also (rounds 5-7): time-zero probes, order option switched after use, integer probes against float baselines, probes in another physical frame.",
+    "C13": "Also (rounds 5-7): time-zero probes, order option switched after use, integer probes against float baselines, probes in another physical frame. Round 9: one probe object used as a frame buffer between calls.",
 }
 
 NOT_YET = "check not built yet in this revision (see DESIGN.md §6 for the order of work)"
